@@ -20,8 +20,7 @@ func (m Matches) Print() {
 }
 
 func (m Matches) Json() string {
-	var mi any = m
-	data, err := json.Marshal(mi.([]Match))
+	data, err := json.Marshal(m)
 	if err != nil {
 		panic(err)
 	}
